@@ -143,6 +143,18 @@ def generate(tier, seed):
             if r not in rows:      # (a repeated row is a set-semantics question of C04, not of the text format)
                 rows.append(r)
         text = engine.policy_text(rnd, rows)
+        # lines whose first column is no policy type of the model - a multi-byte first character (also a byte order mark in
+        # front of the first line), an unknown section letter, an unknown type of a known section: skipped, never a panic
+        if rnd.random() < 0.35:
+            tl = text.split("\n")
+            for _ in range(rnd.randint(1, 3)):
+                junk = rnd.choice(["\u00e9t\u00e9, x, y, z", "\u65e5\u672c, a, b", "\uff50, a, b, c", "P, a, b, c", "x, a, b", "pp, a, b, c",
+                                   "g3, a, b", "\u00e9", "\U0001F600p, a, b, c"])
+                tl.insert(rnd.randint(0, len(tl)), junk)
+            text = "\n".join(tl)
+            if rnd.random() < 0.4:
+                text = "\ufeff" + text
+            dist["junk_first_column"] = dist.get("junk_first_column", 0) + 1
         ad = engine.adapter_T(text) if rnd.random() < 0.5 else engine.adapter_Ft(text)
         cases.append(engine.case("eng", sp_pol, ad, "-", ["?ga:p", "?ga:g", "LD", "?ga:p", "?ga:g"]))
         dist["policy_texts"] += 1
